@@ -36,6 +36,51 @@ func TestConc(t *testing.T) {
 	if os.Getenv("VERIF_REPLAY") == "" {
 		r.Watchdog(30 * time.Second)
 	}
+	// cold start: the very first uses of the library in this process happen in 16 goroutines at once (a server whose
+	// first datagrams arrive together): tables built on first use must be built safely.  Every goroutine decodes and
+	// prints the same two canned messages; all must read the same.
+	if os.Getenv("VERIF_REPLAY") == "" {
+		v6 := []byte{1, 0xaa, 0xbb, 0xcc, 0, 1, 0, 10, 0, 3, 0, 1, 2, 0, 0x5e, 0x10, 0, 1, 0, 6, 0, 4, 0, 23, 0, 24, 0, 8, 0, 2, 0, 9,
+			0, 3, 0, 12, 1, 2, 3, 4, 0, 0, 0, 100, 0, 0, 0, 200, 0, 99, 0, 4, 0x80, 1, 2, 3, 0, 16, 0, 7, 0, 0, 0, 9, 0, 1, 'x', 0xff, 0xfe, 0, 2, 7, 7}
+		v4 := make([]byte, 240, 300)
+		v4[0], v4[1], v4[2] = 1, 1, 6
+		copy(v4[236:], []byte{99, 130, 83, 99})
+		v4 = append(v4, 53, 1, 1, 55, 3, 1, 3, 6, 61, 7, 1, 2, 0, 0x5e, 1, 2, 3, 255)
+		out := make([]string, 16)
+		var wg sync.WaitGroup
+		gate := make(chan struct{})
+		for g := 0; g < 16; g++ {
+			wg.Add(1)
+			go func(g int) {
+				defer wg.Done()
+				<-gate
+				pan, val, st := mon.Guard(func() {
+					m, e6 := dhcpv6.FromBytes(v6)
+					p, e4 := dhcpv4.FromBytes(v4)
+					s6, s4 := "ERR "+fmt.Sprint(e6), "ERR "+fmt.Sprint(e4)
+					if e6 == nil {
+						s6 = m.Summary() + fmt.Sprintf("%x", m.ToBytes())
+					}
+					if e4 == nil {
+						s4 = p.Summary() + fmt.Sprintf("%x", p.ToBytes())
+					}
+					out[g] = s6 + "\n" + s4
+				})
+				if pan {
+					r.Violate("C03:conc:panic:"+mon.LibFrame(st), fmt.Sprintf("the first decode of the process, made by 16 goroutines at once, panicked: %v", val), concReplay{true, -1})
+				}
+			}(g)
+		}
+		close(gate)
+		wg.Wait()
+		for g := 1; g < 16; g++ {
+			if out[g] != out[0] && out[g] != "" && out[0] != "" {
+				r.Violate("C03:conc:cold-start-differs", fmt.Sprintf("16 goroutines made the first decodes of the process at once, of the same bytes; goroutine %d read %.300q, goroutine 0 read %.300q", g, out[g], out[0]), concReplay{true, -1})
+				break
+			}
+		}
+		r.Count("conc.cold_start_decodes", 32)
+	}
 	typed = v6util.TypedCodes()
 	isTyped := func(c int) bool { _, ok := typed[c]; return ok }
 	one := func(i int) {
